@@ -251,7 +251,7 @@ Definition frame_apply (f : frame) (o : fop) : frame :=
 (* ---- wider histories (C17 / C11 hardening): every public attribute of the frame, of its
    header and of its data field assigned directly, parts replaced, the decoded object used
    again.  None of these assignments recomputes a cached size except the tfdz setter. ---- *)
-Definition is_some {A} (o : option A) : bool := match o with Some _ => true | None => false end.
+Definition opt_present {A} (o : option A) : bool := match o with Some _ => true | None => false end.
 
 (* header.<attribute k> = v ; k = 0 scid, 1 src_dest, 2 vcid, 3 map_id (both header kinds),
    4 frame_len, 5 bypass_seq_ctrl_flag, 6 prot_ctrl_cmd_flag, 7 op_ctrl_flag, 8 vcf_count_len
@@ -299,7 +299,7 @@ Definition with_hdr (f : frame) (h : fhdr) : frame :=
 Definition frame_roundtrip (f : frame) (truncated : bool) (ft : option ftype) : res frame :=
   do raw <- frame_pack f truncated ft;
   let fixed := cnstr_rules_for_fp (rules (ftfdf f)) in
-  do p <- props_new fixed (len raw) (is_some (izone f)) (is_some (fecf f))
+  do p <- props_new fixed (len raw) (opt_present (izone f)) (opt_present (fecf f))
             (match izone f with Some z => Some (len z) | None => None end)
             (match fecf f with Some z => Some (len z) | None => None end);
   frame_unpack (raw ++ [165; 90]) (if fixed then FtFixed else FtVariable) p.
